@@ -111,7 +111,8 @@ def compare(ra, rb, viols, kind, info, xmap=None, internal=False):
         viols.append(V("result_differs",
                        f"{kind}: identical evaluation sequences but "
                        f"different results: {', '.join(bad)}",
-                       mechanism=kind + ":" + bad[0].split(" ")[0]))
+                       mechanism=kind if kind.endswith("row order changes")
+                       else kind + ":" + bad[0].split(" ")[0]))
 
 
 def settings_compare(ra, rb, viols, info):
